@@ -1138,14 +1138,15 @@ class SoC(LiteXModule, SoCCoreCompat):
         }[self.bus.standard]
         csr_bridge_name = f"{name}_bridge"
         self.check_if_exists(csr_bridge_name)
-        data_width = self.csr.data_width
         csr_bridge = csr_bridge_cls(
+            # CSRs are mapped on alignment-bit words of the SoC bus whatever the CSR data width: the
+            # bus side of the bridge is alignment bits wide, only the CSR side is data_width bits wide.
             bus_bridge_cls(
                 address_width = self.bus.address_width,
-                data_width    = data_width),
+                data_width    = self.csr.alignment),
             bus_csr = csr_bus.Interface(
                 address_width = self.csr.address_width,
-                data_width    = data_width),
+                data_width    = self.csr.data_width),
             register = register)
         self.logger.info("CSR Bridge {} {}.".format(
             colorer(name, color="underline"),
